@@ -268,6 +268,39 @@ impl<'tcx> Cx<'tcx> {
                 let n = n.try_to_target_usize(tcx)? as usize;
                 self.render_array(id, off, *e, n)
             }
+            TyKind::Adt(adt, _) if adt.is_enum() && adt.variants().iter().all(|v| v.fields.is_empty()) => {
+                // a field-less enum value: its discriminant, as the variant's name
+                let lay = tcx.layout_of(ty::TypingEnv::fully_monomorphized().as_query_input(ty)).ok()?;
+                let sz = lay.size.bytes() as usize;
+                let mut v: u128 = 0;
+                if sz > 0 {
+                    if sz > 16 || off + sz > alloc.len() {
+                        return None;
+                    }
+                    let raw = alloc.inspect_with_uninit_and_ptr_outside_interpreter(off..off + sz);
+                    for (k, b) in raw.iter().enumerate() {
+                        v |= (*b as u128) << (8 * k);
+                    }
+                }
+                let mask: u128 = if sz >= 16 || sz == 0 { u128::MAX } else { (1u128 << (8 * sz)) - 1 };
+                for (idx, d) in adt.discriminants(tcx) {
+                    if sz == 0 || (d.val & mask) == v {
+                        return Some(format!("{{\"variant\":{},\"adt\":{}}}", esc(adt.variant(idx).name.as_str()), esc(&tcx.def_path_str(adt.did()))));
+                    }
+                }
+                None
+            }
+            TyKind::FnPtr(..) => {
+                // a function pointer stored in a table: the function it points to
+                if off + 8 > alloc.len() {
+                    return None;
+                }
+                let prov = alloc.provenance().ptrs().iter().find(|(o, _)| o.bytes() as usize == off).map(|(_, p)| *p)?;
+                match tcx.global_alloc(prov.alloc_id()) {
+                    rustc_middle::mir::interpret::GlobalAlloc::Function { instance, .. } => Some(format!("{{\"fn\":{}}}", esc(&tcx.def_path_str(instance.def_id())))),
+                    _ => None,
+                }
+            }
             _ => None,
         }
     }
